@@ -26,6 +26,8 @@ CLAUSE = CLAUSE + (" Outside the assembler, abandoning the sub-packet in progres
 CLAUSE = CLAUSE + (" vbi_reset_prog_info never writes pi->future (flush_prog_info indexes info_cycle with it afterwards); "
                    "vbi_chsw_reset wipes the network record only under identified == 0.")
 CLAUSE = CLAUSE + (' A change of the call letters re-arms the network name comparison.')
+CLAUSE = CLAUSE + (" For each of the 256 values of the first byte of a programme rating packet, xds_decoder reaches the store of "
+                   "the rating authority EIA-608 assigns to bits a3 / a4 / 5 (value partitioning of the interval analysis).")
 NOT_DECIDED = ("exactly-once delivery under interleaving, equality of the delivered bytes with the sent ones, content decoding "
                "into vbi_program_info (values).")
 
@@ -199,6 +201,66 @@ def run(ctx, run):
     from . import C13
     C13._call_letters_rearm(ctx, run)
     _current_packet_labelled(ctx, run)
+    _rating_system_table(ctx, run)
+
+
+def _rating_system_table(ctx, run):
+    """Programme rating packet (Current / Future class, type 5): bits a3 / a4 of the first byte select the rating system
+    (EIA-608: a3 = 0 MPAA whatever a4 is; a4a3 = 01 US TV; a4a3 = 11 Canadian, English or French by bit 5).  Decided by
+    value partitioning: xds_decoder is analysed once for each of the 256 values of buffer[0] (that byte fixed, everything
+    else unconstrained) and the rating authorities whose store stays reachable are compared with the table.  A rating
+    system that is *lost* for some value (the interval analysis over-approximates reachability, so unreachable is
+    definite) means delivered rating packets are dropped or attributed to the wrong authority."""
+    P = ctx.prog
+    f = P.need("xds_decoder", "src/caption.c")
+    run.touch(f)
+    buf = f.params[3]["name"]
+    sites = []
+    for bid, i in flow.all_events(f):
+        for lhs, var, op, rhs in flow.stores(f, i):
+            if rhs is None or op != "=":
+                continue
+            r = f.exprs[ex.skip(f, rhs)]
+            while r["k"] == "cast" and r.get("c"):
+                r = f.exprs[ex.skip(f, r["c"][0])]
+            if r["k"] == "ref" and str(r.get("name", "")).startswith("VBI_RATING_AUTH_") and r["name"] != "VBI_RATING_AUTH_NONE":
+                sites.append((i, r["name"][len("VBI_RATING_AUTH_"):]))
+    run.floor("stores of a rating authority in xds_decoder", len(sites), 4)
+
+    def expected(v):
+        if not v & 0x08:
+            return {"MPAA"} if v & 7 else set()
+        if not v & 0x10:
+            return {"TV_US"}
+        return {"TV_CA_FR"} if v & 0x20 else {"TV_CA_EN"}
+    lost, extra = {}, {}
+    for v in range(256):
+        an = absint.Analysis(ctx, f, {}, extra_init={"%s[0]" % buf: (v, v)})
+        an.persistent = True
+        an = an.run()
+        if getattr(an, "extra_missing", None):
+            raise AnalysisBroken("xds_decoder: the first payload byte was not found as %s[0]" % buf)
+        got = {name for i, name in sites if an.state_before(i) is not None}
+        exp = expected(v)
+        if exp - got:
+            lost[v] = sorted(exp - got)
+        if got - exp:
+            extra[v] = sorted(got - exp)
+    key = "RF-TAB:xds_decoder:rating-system"
+    loc = "%s:%d" % (f.file, f.line)
+    if lost:
+        v = sorted(lost)[0]
+        run.violation("RF-TAB", key, "a programme rating packet whose first byte is 0x%02X (a4a3 = %d%d) no longer reaches the store of "
+                      "VBI_RATING_AUTH_%s (%d of 256 first-byte values lose their rating system): the delivered packet is dropped "
+                      "or attributed to another authority" % (v, (v >> 4) & 1, (v >> 3) & 1, lost[v][0], len(lost)), loc,
+                      witness={"first_byte": v, "lost": {("0x%02X" % k): x for k, x in sorted(lost.items())[:16]}})
+    elif extra:
+        v = sorted(extra)[0]
+        run.undecided("RF-TAB", key, "first byte 0x%02X may also reach the store of VBI_RATING_AUTH_%s (%d values): either the "
+                      "selection was widened or the interval analysis lost precision on this shape" % (v, extra[v][0], len(extra)), loc)
+    else:
+        run.holds("RF-TAB", key, "for each of the 256 values of the first rating byte exactly the EIA-608 rating system is stored "
+                  "(MPAA for a3 = 0 and r != 0, US TV for a4a3 = 01, Canadian English / French for a4a3 = 11 by bit 5)", loc)
 
 
 def _current_packet_labelled(ctx, run):
